@@ -8,7 +8,7 @@ BUDGET = {"quick": 4000, "thorough": 300000}
 RULE = ("token soups over the terminal alphabet of grammar.pest; grammar-directed templates (nesting up to 64) and "
         "single-edit mutations of them (delete / insert / duplicate a token, toggle '~', swap tag kinds); every tag kind x "
         "position of '~' x else / else-chain form; EXHAUSTIVELY every tag opener x body of length ≤ 2 (thorough: 3) over {- ! space é a } ~} x every closer; each compiled by the real crate under catch_unwind in a child process "
-        "and by the Lean model (AST, error variant, line, column compared); plus registrations of a bad source over a good "
+        "EXHAUSTIVELY every path of ≤ 3 pieces over {@ ../ ./ this [this] a . / [0] 0 @root @index} in every position that takes a path; and by the Lean model (AST, error variant, line, column compared); plus registrations of a bad source over a good "
         "one (registry unchanged; also in dev mode over a name that follows a file); non-trivial = not plain text; distinct by source")
 DEFINITE_FLOOR = 0.99
 TOKENS = ["{{", "}}", "{{{", "}}}", "{{{{", "}}}}", "#", "/", ">", "*", "~", "!", "!--", "--", "&", "^", "else", "if", "each",
@@ -93,8 +93,31 @@ def tiny(maxlen):
     return [o + b + c for o in openers for b in bodies for c in closers]
 
 
+def paths(maxlen):
+    """EXHAUSTIVE: every path spelled from ≤ maxlen pieces over {@ ../ ./ this [this] a . / [0] 0 @root @index}, in every
+    position that takes a path (value tag, helper parameter, hash value, subexpression, partial argument, block head,
+    else-chain link) – Path::new and the local-variable / parent-step bookkeeping run for each of them at compile time"""
+    alpha = ["@", "../", "./", "this", "[this]", "a", ".", "/", "[0]", "0", "@root", "@index"]
+    seqs, cur = [], [""]
+    for k in range(maxlen):
+        cur = [b + a for b in cur for a in alpha]
+        seqs.append(list(cur))
+    outs = []
+    for k, level in enumerate(seqs):
+        for pth in level:
+            outs.append("{{" + pth + "}}")
+            outs.append("{{foo " + pth + "}}")
+            if k < 2:
+                outs += ["{{foo h=" + pth + "}}", "{{foo (bar " + pth + ")}}", "{{> p " + pth + "}}", "{{> p a=" + pth + "}}",
+                         "{{#each " + pth + "}}x{{/each}}", "{{#if a}}x{{else if (foo " + pth + ")}}y{{/if}}", "{{*d " + pth + "}}"]
+    return outs
+
+
 def generate(rng, n, tier="quick"):
     out = []
+    for k, src in enumerate(paths(3)):
+        out.append(({"kind": "compile", "src": src, "name": None, "prevent_indent": False, "id": "%s-path-%05d" % (ID, k)},
+                    {"mode": "path", "src": src}))
     for k, src in enumerate(cross()):
         out.append(({"kind": "compile", "src": src, "name": None, "prevent_indent": False, "id": "%s-cross-%03d" % (ID, k)},
                     {"mode": "cross", "src": src}))
